@@ -5,13 +5,14 @@ import vp
 from checks import prop, REPLAYERS
 
 H_INV = ["PikoAnswersOnly400_502_504", "MissingEndpointIs400", "UnavailableIs502", "SlowIs504UnlessUpgrade",
-         "NoFabricatedSuccess"]
+         "NoFabricatedSuccess", "OnlyGatewayErrorsOrTheUpstream"]
 
 
 @prop("C08")
 def c08(chk):
     quick = chk.tier == "quick"
-    chk.rule = ("(1) HttpMap.tla: the decision table (endpoint determinable x route x upstream behaviour x upgrade) "
+    chk.rule = ("(1) HttpMap.tla: the decision table (endpoint determinable x route x upstream behaviour x upgrade x "
+                "whether the client half-closes once the request is sent) "
                 "and its invariants; (2) a real two-node cluster (proxy timeout 300 ms): seeded randomly shaped "
                 "requests (7 methods, escaped paths and queries, Host vs x-piko-endpoint addressing, repeated "
                 "headers, bodies up to 1 MiB, response status / headers / body up to 200 kB, chunked or not) "
